@@ -107,6 +107,7 @@ def _run(case):
         except gauss.Degenerate:
             continue
         T = len(idxs)
+        scale_slack = ssmcheck.scale_slack(res)[-1]
         J = gauss.joint_cov(sm, G, idxs)
         J = gauss.calibrated(res, J) if res.calib != "mle" else C13._calibrate_joint(res, J, T, q, d)
         mjoint = np.concatenate([sm[i][0] for i in idxs])
@@ -149,7 +150,8 @@ def _run(case):
                     got = float(loss_fns[avg](jnp.asarray(data), std_arg))
                     want = float(total / T) if avg else float(total)
                     n += 1
-                    allowed = 1e-8 * max(1.0, cond * 1e-4)
+                    # the log-density inherits the conditioning of estimated scales (d LML / d log(scale) ~ T d): see ssmcheck.scale_slack
+                    allowed = 1e-8 * max(1.0, cond * 1e-4) + 10 * scale_slack
                     dev = abs(got - want) / (abs(want) + T * d)
                     worst = max(worst, dev / allowed)
                     if not dev <= allowed:
@@ -172,8 +174,8 @@ def _run(case):
                 gotT = float(lossT_fn(jnp.asarray(data[-1]), stdT))
                 n += 1
                 devT = abs(gotT - wantT) / (abs(wantT) + d)
-                worst = max(worst, devT / 1e-8)
-                if not devT <= 1e-8:
+                worst = max(worst, devT / (1e-8 + 10 * scale_slack))
+                if not devT <= 1e-8 + 10 * scale_slack:
                     fails.append(core.fail("terminal_loss_value", f"{tag0} tcoeff={ti} std={pat}:{sval} data{dpal}: got {gotT!r} want {wantT!r}"))
             if len(fails) > 8:
                 break
